@@ -306,7 +306,9 @@ func (p *Parser) Parse() (ast.Statement, error) {
 func (p *Parser) ParseSnippetVCL() ([]ast.Statement, error) {
 	var statements []ast.Statement
 
-	for !p.PeekTokenIs(token.EOF) {
+	// Each turn starts on the first token of a statement: looking at the peek token instead
+	// would silently accept a single surplus token in front of the end of the file
+	for !p.CurTokenIs(token.EOF) {
 		var stmt ast.Statement
 		var err error
 
